@@ -8,29 +8,26 @@ Layer C — THEOREMS about the advisory notations and the simple relation conver
       `snyk_exact`, `snyk_exact_scheme`          Snyk: comma form, space form, brackets
       `gitlab_exact_dict`, `gitlab_exact`        GitLab: `||`, separator, glued / separate comparator
       `deb_exact`                                Debian relations
-      `rpm_exact_partial`, `rpm_exact_counterexample`   RPM, every spelling but `<>`
+      `rpm_exact`                                RPM relations (`<>` included)
       `openssl_exact`                            OpenSSL comma list
     key lemma `splitReq_item`: what `split_req` returns on a spelled item.
 (b) the dict-order condition of `split_req` over the generated tables
-      `split_req_order_ok_github`, `split_req_order_ok_snyk`, `split_req_order_ok_partial`,
-      `split_req_order_counterexample_rpm` (`<` shadows `<>`),
-      `split_req_order_counterexample_pypi` (`==` shadows `===`)
+      `split_req_order_ok_github`, `split_req_order_ok_snyk`,
+      `split_req_order_ok` (every class of `Gen.nativeComparators`)
 (c) `notations_agree`: GitHub = Snyk comma = Snyk space on the same expression
 (d) declared errors (C16)
       `github_declared_partial` + `github_declared_counterexample` (KeyError, unknown scheme)
       `snyk_declared_partial` + `snyk_declared_counterexample`
-      `gitlab_declared_partial`, `gitlab_declared_or_typeerror`,
-      `gitlab_declared_counterexample_typeerror` (pypi `~=`), `gitlab_declared_counterexample_keyerror`
+      `gitlab_declared` (every known scheme), `gitlab_declared_counterexample_keyerror`
       `deb_declared`, `rpm_declared`, `openssl_declared`, `nginx_declared`, `nginx_declared_semver`
 (e) nginx
-      `nginx_dash`, `nginx_plus_stable`, `nginx_plus_mainline`, `nginx_plain`, `nginx_all`
+      `nginx_dash`, `nginx_dash_equal`, `nginx_plus_stable`, `nginx_plus_mainline`, `nginx_plain`,
+      `nginx_all`
       (any `NginxOps`), and with the Layer-A semver model on `a.b.c`:
       `nginx_dash_numeric`, `nginx_plus_stable_numeric`, `nginx_plus_mainline_numeric`,
-      `nginx_plain_numeric`, `nginx_examples`;
-      `nginx_equal_ends`, `nginx_equal_ends_counterexample`, `nginx_equal_ends_not_wf`.
+      `nginx_dash_equal_numeric`, `nginx_plain_numeric`, `nginx_examples`, `nginx_dash_equal_examples`.
 -/
 import Univers.Text.AdvisorySpec
-import Univers.Vers.Spec
 import Univers.Scheme.SemverThm
 
 namespace Univers.Text.Advisory
@@ -403,23 +400,14 @@ theorem nativeDict_rpm : nativeDict "RpmVersionRange" = some rpmDict := by decid
 theorem split_req_order_ok_github : orderOk githubDict = true := by decide
 theorem split_req_order_ok_snyk : orderOk snykDict = true := by decide
 
-/-- (b) the per-class dictionaries: no key is shadowed, EXCEPT in two classes -/
-theorem split_req_order_ok_partial :
-    ∀ p ∈ Gen.nativeComparators, p.1 ≠ "RpmVersionRange" → p.1 ≠ "PypiVersionRange" →
-      orderOk (ofGen p.2) = true := by decide
+/-- (b) every per-class dictionary (rpm and pypi included, since `<>` precedes `<` and `===`
+precedes `==`): no key is shadowed by an earlier key that is a proper prefix with another meaning -/
+theorem split_req_order_ok :
+    ∀ p ∈ Gen.nativeComparators, orderOk (ofGen p.2) = true := by decide
 
-/-- (b) in `RpmVersionRange.vers_by_native_comparators` exactly `<>` is shadowed (by `<`, which
-comes first and means `<`, not `!=`) -/
-theorem split_req_order_counterexample_rpm :
-    shadowed rpmDict = [(['<', '>'], some ['!', '='])] ∧
-      firstMatch rpmDict ['<', '>'] = some (['<'], some ['<']) := by decide
-
-/-- (b) in `PypiVersionRange.vers_by_native_comparators` exactly `===` is shadowed (by `==`, which
-means `=` while `===` maps to `None`) -/
-theorem split_req_order_counterexample_pypi :
-    (nativeDict "PypiVersionRange").map shadowed = some [(['=', '=', '='], none)] ∧
-      (nativeDict "PypiVersionRange").map (fun d => firstMatch d ['=', '=', '=']) =
-        some (some (['=', '='], some ['='])) := by decide
+/-- the former defect stays fixed: `<>` is found before `<` -/
+theorem split_req_order_rpm_ne :
+    firstMatch rpmDict ['<', '>'] = some (['<', '>'], some ['!', '=']) := by decide
 
 theorem keysOk_github : keysOk githubDict githubBad = true := by decide
 theorem keysOk_snyk : keysOk snykDict snykBad = true := by decide
@@ -538,33 +526,25 @@ theorem deb_exact (mk : Str → Except TErr Str) (rs : List Rel) (h : ∀ r ∈ 
     debNatives mk (rs.map Rel.text) = constraintsOf mk (relAst rs) :=
   relNatives_exact mk _ debDict debBad nativeDict_deb keysOk_deb rs
     (fun r hr => ⟨h r hr, keyFine_of_orderOk
-      (split_req_order_ok_partial ("DebianVersionRange", _) (by decide) (by decide) (by decide))
+      (split_req_order_ok ("DebianVersionRange", _) (by decide))
       (h r hr).1.1⟩)
 
-/-- (a) RPM (C06 for `rpm`): exact for every spelling but `<>` -/
-theorem rpm_exact_partial (mk : Str → Except TErr Str) (rs : List Rel)
-    (h : ∀ r ∈ rs, r.WF rpmDict rpmBad) (hne : ∀ r ∈ rs, r.item.key ≠ ['<', '>']) :
+/-- (a) RPM (C06 for `rpm`): every relation `>= 1.0`, `<> 1.0`, `== 1,` … of a list -/
+theorem rpm_exact (mk : Str → Except TErr Str) (rs : List Rel) (h : ∀ r ∈ rs, r.WF rpmDict rpmBad) :
     rpmNatives mk (rs.map Rel.text) = constraintsOf mk (relAst rs) :=
   relNatives_exact mk _ rpmDict rpmBad nativeDict_rpm keysOk_rpm rs
-    (fun r hr => ⟨h r hr, by
-      have hsp : (r.item.key, some (cmprText r.item.c)) ∈ rpmDict := (h r hr).1.1
-      have hne' := hne r hr
-      have : ∀ kv ∈ rpmDict, kv.1 ≠ ['<', '>'] → keyFine rpmDict kv.1 kv.2 = true := by decide
-      exact this _ hsp hne'⟩)
+    (fun r hr => ⟨h r hr, keyFine_of_orderOk
+      (split_req_order_ok ("RpmVersionRange", _) (by decide))
+      (h r hr).1.1⟩)
 
 instance (d : Dict) (strip : Str) (r : Rel) : Decidable (r.WF d strip) := by
   unfold Rel.WF; infer_instance
 
-example : ∃ r : Rel, r.WF rpmDict rpmBad ∧ r.item.key ≠ ['<', '>'] :=
-  ⟨⟨⟨.ge, ['1'], ['>', '='], [], [' '], []⟩, [], [',']⟩, by decide, by decide⟩
-
-/-- the `<>` spelling is a well-formed rendering of `!= 1.0`, yet the converter answers
-`< >1.0`: the known dict-order defect -/
-theorem rpm_exact_counterexample :
+/-- the `<>` spelling of `!= 1.0` is now read as stated -/
+theorem rpm_exact_ne_example :
     let r : Rel := ⟨⟨.ne, ['1', '.', '0'], ['<', '>'], [], [' '], []⟩, [], []⟩
-    r.WF rpmDict rpmBad ∧ relAst [r] = [(.ne, ['1', '.', '0'])] ∧
-      rpmNatives .ok [r.text] = .ok [.mk .lt ['>', '1', '.', '0']] := by
-  refine ⟨by decide, rfl, by rfl⟩
+    r.WF rpmDict rpmBad ∧ rpmNatives .ok [r.text] = .ok [.mk .ne ['1', '.', '0']] := by
+  refine ⟨by decide, by rfl⟩
 
 /-! ### Snyk -/
 
@@ -1358,8 +1338,16 @@ theorem gitlabLoop_none (mk : Str → Except TErr Str) (d : Dict) (item : Str) (
   | cons x t => simp [gitlabLoop]
 
 theorem gitlabLoop_key (mk : Str → Except TErr Str) (d : Dict) (c item : Str) (rest : List Str)
-    (v : Option Str) (hne : item ≠ []) (h : d.lookup (c ++ item) = some v) :
-    gitlabLoop mk d (some c) (item :: rest) = gitlabLoop mk d v rest := by
+    (v : Str) (hne : item ≠ []) (h : d.lookup (c ++ item) = some (some v)) :
+    gitlabLoop mk d (some c) (item :: rest) = gitlabLoop mk d (some v) rest := by
+  cases item with
+  | nil => exact absurd rfl hne
+  | cons x t => simp [gitlabLoop, h]
+
+/-- a dictionary entry whose value is `None`: `raise ValueError` -/
+theorem gitlabLoop_noneval (mk : Str → Except TErr Str) (d : Dict) (c item : Str) (rest : List Str)
+    (hne : item ≠ []) (h : d.lookup (c ++ item) = some none) :
+    gitlabLoop mk d (some c) (item :: rest) = .error .ValueError := by
   cases item with
   | nil => exact absurd rfl hne
   | cons x t => simp [gitlabLoop, h]
@@ -1400,8 +1388,12 @@ theorem gitlabLoop_filter (mk : Str → Except TErr Str) (d : Dict) :
       | some c =>
         cases hl : d.lookup (c ++ x :: t) with
         | some v =>
-          rw [gitlabLoop_key _ _ _ _ _ _ (by simp) hl, gitlabLoop_key _ _ _ _ _ _ (by simp) hl]
-          exact gitlabLoop_filter mk d rest v
+          cases v with
+          | none =>
+            rw [gitlabLoop_noneval _ _ _ _ _ (by simp) hl, gitlabLoop_noneval _ _ _ _ _ (by simp) hl]
+          | some v =>
+            rw [gitlabLoop_key _ _ _ _ _ _ (by simp) hl, gitlabLoop_key _ _ _ _ _ _ (by simp) hl]
+            exact gitlabLoop_filter mk d rest (some v)
         | none =>
           rw [gitlabLoop_ver _ _ _ _ _ (by simp) hl, gitlabLoop_ver _ _ _ _ _ (by simp) hl,
             gitlabLoop_filter mk d rest (some [])]
@@ -2031,16 +2023,6 @@ theorem openssl_declared {mk : Str → Except TErr Str} (hmk : MkDeclared mk) (s
 
 /-! #### GitLab -/
 
-/-- a value, a declared error, or the internal `TypeError` -/
-def DeclaredOrType {α : Type} : Except TErr α → Prop
-  | .ok _ => True
-  | .error e => e.declared = true ∨ e = .TypeError
-
-theorem Declared.orType {α : Type} {r : Except TErr α} (h : Declared r) : DeclaredOrType r := by
-  cases r with
-  | ok _ => trivial
-  | error e => exact Or.inl h
-
 theorem gitlabCon_declared {mk : Str → Except TErr Str} (hmk : MkDeclared mk) (d : Dict) (c item : Str) :
     Declared (if !c.isEmpty then buildCon mk (some c) item
       else match splitReq item d (some ['=']) [] with
@@ -2053,62 +2035,47 @@ theorem gitlabCon_declared {mk : Str → Except TErr Str} (hmk : MkDeclared mk) 
     | error e => rw [h] at this; exact this
     | ok cv => exact buildCon_declared hmk cv.1 cv.2
 
-/-- the token loop lets nothing but declared errors and `TypeError` escape; and no `TypeError`
-when it starts in a `str` state and no value of the dictionary is `None` -/
-theorem gitlabLoop_errors {mk : Str → Except TErr Str} (hmk : MkDeclared mk) (d : Dict) :
-    ∀ (items : List Str) (st : Option Str),
-      DeclaredOrType (gitlabLoop mk d st items) ∧
-        (d.all (·.2.isSome) = true → st.isSome = true → Declared (gitlabLoop mk d st items))
-  | [], _ => ⟨trivial, fun _ _ => trivial⟩
-  | item :: rest, st => by
+/-- the token loop, started in a `str` state, only lets declared errors escape (a `None` value
+of the dictionary is reported as `ValueError`) -/
+theorem gitlabLoop_declared {mk : Str → Except TErr Str} (hmk : MkDeclared mk) (d : Dict) :
+    ∀ (items : List Str) (c : Str), Declared (gitlabLoop mk d (some c) items)
+  | [], _ => trivial
+  | item :: rest, c => by
     by_cases hne : item = []
     · subst hne
       rw [gitlabLoop_nil_item]
-      exact gitlabLoop_errors hmk d rest st
-    · cases st with
-      | none =>
-        rw [gitlabLoop_none _ _ _ _ hne]
-        exact ⟨Or.inr rfl, fun _ h => by simp at h⟩
-      | some c =>
-        cases hl : d.lookup (c ++ item) with
+      exact gitlabLoop_declared hmk d rest c
+    · cases hl : d.lookup (c ++ item) with
+      | some v =>
+        cases v with
+        | none => rw [gitlabLoop_noneval _ _ _ _ _ hne hl]; rfl
         | some v =>
           rw [gitlabLoop_key _ _ _ _ _ _ hne hl]
-          refine ⟨(gitlabLoop_errors hmk d rest v).1, fun hd _ => ?_⟩
-          have hm := mem_of_lookup _ _ _ hl
-          have : v.isSome = true := by simpa using List.all_eq_true.mp hd _ hm
-          exact (gitlabLoop_errors hmk d rest v).2 hd this
-        | none =>
-          rw [gitlabLoop_ver _ _ _ _ _ hne hl]
-          have hc := gitlabCon_declared hmk d c item
-          have ih := gitlabLoop_errors hmk d rest (some [])
-          cases hcon : (if !c.isEmpty then buildCon mk (some c) item
-              else match splitReq item d (some ['=']) [] with
-                | .error e => .error e
-                | .ok (c', v) => buildCon mk c' v) with
-          | error e =>
-            rw [hcon] at hc
-            exact ⟨Or.inl hc, fun _ _ => hc⟩
-          | ok k =>
-            simp only
-            cases hr : gitlabLoop mk d (some []) rest with
-            | error e =>
-              rw [hr] at ih
-              exact ⟨ih.1, fun hd _ => ih.2 hd rfl⟩
-            | ok ks => exact ⟨trivial, fun _ _ => trivial⟩
+          exact gitlabLoop_declared hmk d rest v
+      | none =>
+        rw [gitlabLoop_ver _ _ _ _ _ hne hl]
+        have hc := gitlabCon_declared hmk d c item
+        have ih := gitlabLoop_declared hmk d rest []
+        cases hcon : (if !c.isEmpty then buildCon mk (some c) item
+            else match splitReq item d (some ['=']) [] with
+              | .error e => .error e
+              | .ok (c', v) => buildCon mk c' v) with
+        | error e => rw [hcon] at hc; exact hc
+        | ok k =>
+          simp only
+          cases hr : gitlabLoop mk d (some []) rest with
+          | error e => rw [hr] at ih; exact ih
+          | ok ks => trivial
 
 /-- what the code needs from the class of a purl scheme: it is registered, and either delegated
-or it has a dictionary without `None` values and a version class -/
-def gitlabClassOk (noNone : Bool) (purl : String) : Bool :=
+or it has a dictionary and a version class -/
+def gitlabClassOk (purl : String) : Bool :=
   match rangeClassOf purl with
   | none => false
   | some cls => gitlabDelegated.contains cls ||
-    ((match nativeDict cls with
-      | some d => !noNone || d.all (·.2.isSome)
-      | none => false) && (versionClassOf cls).isSome)
+    ((nativeDict cls).isSome && (versionClassOf cls).isSome)
 
-theorem gitlab_classes_ok :
-    ∀ p ∈ Gen.gitlabSchemes, gitlabClassOk false p.2 = true ∧
-      (p.2 ≠ "pypi" → gitlabClassOk true p.2 = true) := by decide
+theorem gitlab_classes_ok : ∀ p ∈ Gen.gitlabSchemes, gitlabClassOk p.2 = true := by decide
 
 theorem gitlabPurl_mem {gs purl : String} (h : gitlabPurl gs = .ok purl) :
     ∃ p ∈ Gen.gitlabSchemes, p.2 = purl := by
@@ -2126,12 +2093,13 @@ theorem gitlabPurl_mem {gs purl : String} (h : gitlabPurl gs = .ok purl) :
       have e : p = purl := by injection h
       exact ⟨(gs, p), mem_of_lookup_str _ _ _ hl, e⟩
 
-theorem fromGitlab_errors (mkVerOf : String → Str → Except TErr Str)
+/-- (d) GitLab: for every KNOWN GitLab scheme (pypi included) every text gives a range or a
+declared error (the delegated `from_native` of conan / maven / nuget being assumed so). -/
+theorem gitlab_declared (mkVerOf : String → Str → Except TErr Str)
     (nativeOf : String → Str → Except TErr (List TCon))
     (hmk : ∀ vc, MkDeclared (mkVerOf vc)) (hnat : ∀ p s, Declared (nativeOf p s))
     (gs purl : String) (hp : gitlabPurl gs = .ok purl) (s : Str) :
-    DeclaredOrType (fromGitlab mkVerOf nativeOf gs s) ∧
-      (purl ≠ "pypi" → Declared (fromGitlab mkVerOf nativeOf gs s)) := by
+    Declared (fromGitlab mkVerOf nativeOf gs s) := by
   obtain ⟨p, hpm, hp2⟩ := gitlabPurl_mem hp
   have hok := gitlab_classes_ok p hpm
   rw [hp2] at hok
@@ -2144,44 +2112,24 @@ theorem fromGitlab_errors (mkVerOf : String → Str → Except TErr Str)
     simp only [hc] at hok ⊢
     by_cases hdel : gitlabDelegated.contains cls = true
     · simp only [hdel, ↓reduceIte]
-      exact ⟨(hnat purl s).orType, fun _ => hnat purl s⟩
+      exact hnat purl s
     · have hdel' : gitlabDelegated.contains cls = false := by simpa using hdel
       simp only [hdel', Bool.false_eq_true, ↓reduceIte, Bool.false_or] at hok ⊢
       split
-      · exact ⟨trivial, fun _ => trivial⟩
+      · trivial
       · cases hd : nativeDict cls with
         | none => simp [hd] at hok
         | some d =>
           cases hv : versionClassOf cls with
           | none => simp [hv] at hok
-          | some vc =>
-            simp only [hd, hv, Bool.not_false, Bool.true_or, Option.isSome_some, Bool.and_self,
-              Bool.not_true, Bool.false_or, Bool.and_true, true_and] at hok ⊢
-            have := gitlabLoop_errors (hmk vc) d (gitlabItems (gitlabSep purl s) s) (some [])
-            exact ⟨this.1, fun hne => this.2 (hok hne) rfl⟩
+          | some vc => exact gitlabLoop_declared (hmk vc) d _ []
 
-/-- (d) GitLab: for a known GitLab scheme whose purl scheme is not `pypi`, every text gives a range
-or a declared error (the delegated `from_native` of conan / maven / nuget being assumed so). -/
-theorem gitlab_declared_partial (mkVerOf : String → Str → Except TErr Str)
-    (nativeOf : String → Str → Except TErr (List TCon))
-    (hmk : ∀ vc, MkDeclared (mkVerOf vc)) (hnat : ∀ p s, Declared (nativeOf p s))
-    (gs purl : String) (hp : gitlabPurl gs = .ok purl) (hne : purl ≠ "pypi") (s : Str) :
-    Declared (fromGitlab mkVerOf nativeOf gs s) :=
-  (fromGitlab_errors mkVerOf nativeOf hmk hnat gs purl hp s).2 hne
-
-/-- (d) GitLab, every known scheme (pypi included): nothing but a declared error or `TypeError` -/
-theorem gitlab_declared_or_typeerror (mkVerOf : String → Str → Except TErr Str)
-    (nativeOf : String → Str → Except TErr (List TCon))
-    (hmk : ∀ vc, MkDeclared (mkVerOf vc)) (hnat : ∀ p s, Declared (nativeOf p s))
-    (gs purl : String) (hp : gitlabPurl gs = .ok purl) (s : Str) :
-    DeclaredOrType (fromGitlab mkVerOf nativeOf gs s) :=
-  (fromGitlab_errors mkVerOf nativeOf hmk hnat gs purl hp s).1
-
-/-- for pypi the comparator `~=` (value `None` in the dictionary) followed by another item makes
-`"".join([None, item])` raise `TypeError` (C16 finding) -/
-theorem gitlab_declared_counterexample_typeerror :
-    fromGitlab (fun _ => .ok) (fun _ _ => .ok []) "pypi" ['~', '=', ',', '1', '.', '0'] =
-      .error .TypeError := by rfl
+/-- the former `TypeError` witnesses are now `ValueError`s -/
+theorem gitlab_none_comparator_examples :
+    fromGitlab (fun _ => .ok) (fun _ _ => .ok []) "pypi" "~=,1.0".toList = .error .ValueError ∧
+    fromGitlab (fun _ => .ok) (fun _ _ => .ok []) "pypi" "==,==,1.0".toList = .error .ValueError ∧
+    fromGitlab (fun _ => .ok) (fun _ _ => .ok []) "pypi" "===1.0".toList = .error .ValueError := by
+  refine ⟨by rfl, by rfl, by rfl⟩
 
 /-- an unknown GitLab scheme escapes as `KeyError` (C16 finding) -/
 theorem gitlab_declared_counterexample_keyerror :
@@ -2217,13 +2165,22 @@ theorem contains_false_of_not_mem {c : Char} {s : Str} (h : c ∉ s) : s.contain
   | false => rfl
   | true => exact absurd (List.contains_iff_mem.mp e) h
 
-/-- (e) a dash range `a-b` gives `>=a` and `<=b` (both ends included) -/
+/-- (e) a dash range `a-b` with different ends gives `>=a` and `<=b` (both ends included) -/
 theorem nginx_dash (o : NginxOps) (a b : Str) (ra rb : o.R) (hna : '-' ∉ a)
-    (ha : o.make a = .ok ra) (hb : o.make b = .ok rb) :
+    (ha : o.make a = .ok ra) (hb : o.make b = .ok rb) (hne : o.eq ra rb = false) :
     nginxClause o (a ++ '-' :: b) = .ok [.mk .ge (o.str ra), .mk .le (o.str rb)] := by
   unfold nginxClause
   have hc : (a ++ '-' :: b).contains '-' = true := by simp
-  simp only [hc, ↓reduceIte, partition_append '-' b a hna, ha, hb, mkCon_ge, mkCon_le]
+  simp only [hc, ↓reduceIte, partition_append '-' b a hna, ha, hb, hne, Bool.false_eq_true,
+    mkCon_ge, mkCon_le]
+
+/-- (e) a dash range whose ends are EQUAL versions is that single version -/
+theorem nginx_dash_equal (o : NginxOps) (a b : Str) (ra rb : o.R) (hna : '-' ∉ a)
+    (ha : o.make a = .ok ra) (hb : o.make b = .ok rb) (heq : o.eq ra rb = true) :
+    nginxClause o (a ++ '-' :: b) = .ok [.mk .eq (o.str ra)] := by
+  unfold nginxClause
+  have hc : (a ++ '-' :: b).contains '-' = true := by simp
+  simp only [hc, ↓reduceIte, partition_append '-' b a hna, ha, hb, heq, mkCon_eq]
 
 /-- (e) `v+` on a stable branch (even minor): from `v` up to, not including, the next minor -/
 theorem nginx_plus_stable (o : NginxOps) (vs t : Str) (r r2 : o.R) (h1 : '-' ∉ vs) (h2 : '+' ∉ vs)
@@ -2300,28 +2257,13 @@ theorem nginx_examples :
     nginxNative nginxSemver "none".toList = .error .InvalidVersion := by
   refine ⟨by rfl, by rfl, by rfl, by rfl, by rfl⟩
 
-/-- (e) the suspicious case: a dash range with EQUAL ends gives `>=x|<=x`, the same version
-twice … -/
-theorem nginx_equal_ends_counterexample :
-    nginxNative nginxSemver "1.2.3-1.2.3".toList =
-      .ok [.mk .ge "1.2.3".toList, .mk .le "1.2.3".toList] := by rfl
-
-/-- … which is not a well-formed constraint list, whatever the (reflexive) version order -/
-theorem nginx_equal_ends_not_wf {V : Type} (cmp : V → V → Ordering) (hrefl : ∀ v, cmp v v = .eq)
-    (v : V) : ¬ WF cmp [Con.mk .ge v, Con.mk .le v] := by
-  rintro ⟨s, hperm, hwf⟩
-  have hlen : s.length = 2 := by simpa using hperm.length_eq
-  match s, hlen with
-  | [a, b], _ =>
-    have ha : a ∈ [Con.mk .ge v, Con.mk .le v] := hperm.subset (by simp)
-    have hb : b ∈ [Con.mk .ge v, Con.mk .le v] := hperm.subset (by simp)
-    rcases hwf with h | ⟨_, hs, _, _⟩
-    · simp at h
-    · unfold StrictSorted at hs
-      have hab := (List.pairwise_cons.mp hs).1 b (by simp)
-      simp only [List.mem_cons, List.not_mem_nil, or_false] at ha hb
-      rcases ha with rfl | rfl <;> rcases hb with rfl | rfl <;> simp [hrefl] at hab
-
+/-- (e) the formerly suspicious case: equal ends (also when spelled differently) give ONE version -/
+theorem nginx_dash_equal_examples :
+    nginxNative nginxSemver "1.2.3-1.2.3".toList = .ok [.mk .eq "1.2.3".toList] ∧
+    nginxNative nginxSemver "1.2-1.2.0".toList = .ok [.mk .eq "1.2.0".toList] ∧
+    nginxNative nginxSemver "1.2.3-1.2.4".toList =
+      .ok [.mk .ge "1.2.3".toList, .mk .le "1.2.4".toList] := by
+  refine ⟨by rfl, by rfl, by rfl⟩
 
 theorem nginxClause_declared (o : NginxOps) (hmake : ∀ t, Declared (o.make t))
     (hnext : ∀ r, Declared (o.nextMinor r)) (cl : Str) : Declared (nginxClause o cl) := by
@@ -2336,7 +2278,7 @@ theorem nginxClause_declared (o : NginxOps) (hmake : ∀ t, Declared (o.make t))
       have h2 := hmake (partition '-' cl).2
       cases e2 : o.make (partition '-' cl).2 with
       | error e => rw [e2] at h2; exact h2
-      | ok e => trivial
+      | ok e => simp only; split <;> trivial
   · split
     · have h1 := hmake (rstripSet ['+'] cl)
       cases e1 : o.make (rstripSet ['+'] cl) with
@@ -2684,36 +2626,60 @@ theorem nginx_plus_mainline_numeric (a b c : Nat) (hb : b % 2 = 1) :
       · exact Or.inr (Or.inl h)
     · exact Or.inr (Or.inr (Or.inl h))
 
-/-- (e) `a.b.c-d.e.f`: `>=a.b.c` and `<=d.e.f`, whatever the two ends (equal ends included) -/
-theorem nginx_dash_numeric (a b c d e f : Nat) :
+theorem nginxSemver_eq_release (a b c d e f : Nat) :
+    nginxSemver.eq (⟨a, b, c, [], []⟩ : Semver.Raw) (⟨d, e, f, [], []⟩ : Semver.Raw) =
+      decide (a = d ∧ b = e ∧ c = f) := by
+  show Semver.verOps.eq _ _ = _
+  show Semver.valOps.eq _ _ = _
+  rw [Semver.valOps_eq_iff]
+  by_cases h : a = d ∧ b = e ∧ c = f
+  · obtain ⟨rfl, rfl, rfl⟩ := h; simp
+  · have : (⟨a, b, c, [], []⟩ : Semver.Raw) ≠ ⟨d, e, f, [], []⟩ := by
+      intro hh; injection hh with h1 h2 h3; exact h ⟨h1, h2, h3⟩
+    simp [h, this]
+
+theorem relText_dash_chars (a b c d e f : Nat) :
+    ∀ x ∈ relText a b c ++ '-' :: relText d e f,
+      x.isDigit = true ∨ x = '.' ∨ x = '+' ∨ x = '-' := by
+  intro x hx
+  simp only [List.mem_append, List.mem_cons] at hx
+  rcases hx with h | h | h
+  · rcases relText_chars a b c x h with h | h
+    · exact Or.inl h
+    · exact Or.inr (Or.inl h)
+  · exact Or.inr (Or.inr (Or.inr h))
+  · rcases relText_chars d e f x h with h | h
+    · exact Or.inl h
+    · exact Or.inr (Or.inl h)
+
+/-- (e) `a.b.c-d.e.f` with different ends: `>=a.b.c` and `<=d.e.f` -/
+theorem nginx_dash_numeric (a b c d e f : Nat) (hne : ¬ (a = d ∧ b = e ∧ c = f)) :
     nginxNative nginxSemver (relText a b c ++ '-' :: relText d e f) =
       .ok [.mk .ge (relText a b c), .mk .le (relText d e f)] := by
-  rw [nginx_single]
-  · have := nginx_dash nginxSemver (relText a b c) (relText d e f)
-      (⟨a, b, c, [], []⟩ : Semver.Raw) (⟨d, e, f, [], []⟩ : Semver.Raw)
-      (relText_not_mem a b c '-' (by decide) (by decide))
-      (nginxSemver_make_relText a b c) (nginxSemver_make_relText d e f)
-    rw [this]
-    show Except.ok [Con.mk Cmpr.ge (Semver.str ⟨a, b, c, [], []⟩),
-      Con.mk Cmpr.le (Semver.str ⟨d, e, f, [], []⟩)] = _
-    rw [semver_str_release, semver_str_release]
-  · intro x hx
-    simp only [List.mem_append, List.mem_cons] at hx
-    rcases hx with h | h | h
-    · rcases relText_chars a b c x h with h | h
-      · exact Or.inl h
-      · exact Or.inr (Or.inl h)
-    · exact Or.inr (Or.inr (Or.inr h))
-    · rcases relText_chars d e f x h with h | h
-      · exact Or.inl h
-      · exact Or.inr (Or.inl h)
+  rw [nginx_single _ _ (relText_dash_chars a b c d e f)]
+  have := nginx_dash nginxSemver (relText a b c) (relText d e f)
+    (⟨a, b, c, [], []⟩ : Semver.Raw) (⟨d, e, f, [], []⟩ : Semver.Raw)
+    (relText_not_mem a b c '-' (by decide) (by decide))
+    (nginxSemver_make_relText a b c) (nginxSemver_make_relText d e f)
+    (by rw [nginxSemver_eq_release]; simpa using hne)
+  rw [this]
+  show Except.ok [Con.mk Cmpr.ge (Semver.str ⟨a, b, c, [], []⟩),
+    Con.mk Cmpr.le (Semver.str ⟨d, e, f, [], []⟩)] = _
+  rw [semver_str_release, semver_str_release]
 
-/-- (e) the suspicious case for every `x = a.b.c`: `x-x` gives `>=x|<=x`, one version twice,
-which is not a well-formed constraint list (`nginx_equal_ends_not_wf`) -/
-theorem nginx_equal_ends (a b c : Nat) :
+/-- (e) `x-x` for every `x = a.b.c` is the single version `x` -/
+theorem nginx_dash_equal_numeric (a b c : Nat) :
     nginxNative nginxSemver (relText a b c ++ '-' :: relText a b c) =
-      .ok [.mk .ge (relText a b c), .mk .le (relText a b c)] :=
-  nginx_dash_numeric a b c a b c
+      .ok [.mk .eq (relText a b c)] := by
+  rw [nginx_single _ _ (relText_dash_chars a b c a b c)]
+  have := nginx_dash_equal nginxSemver (relText a b c) (relText a b c)
+    (⟨a, b, c, [], []⟩ : Semver.Raw) (⟨a, b, c, [], []⟩ : Semver.Raw)
+    (relText_not_mem a b c '-' (by decide) (by decide))
+    (nginxSemver_make_relText a b c) (nginxSemver_make_relText a b c)
+    (by rw [nginxSemver_eq_release]; simp)
+  rw [this]
+  show Except.ok [Con.mk Cmpr.eq (Semver.str ⟨a, b, c, [], []⟩)] = _
+  rw [semver_str_release]
 
 /-- (e) a plain `a.b.c` is that single version -/
 theorem nginx_plain_numeric (a b c : Nat) :
